@@ -229,6 +229,7 @@ def finish(ctx: Ctx, level: str, explanation: str, checker_cmd: str) -> int:
         except Exception:
             locked = set()
     # proof side
+    extract_lost: set = set()
     n_ob = 0
     n_dis = 0
     per_backend: dict[str, dict] = {}
@@ -275,7 +276,18 @@ def finish(ctx: Ctx, level: str, explanation: str, checker_cmd: str) -> int:
             else:
                 undecided.append(o.name)
         else:
-            ctx.fail_checker(f"obligation {o.name}: engine error: {o.detail[:300]}")
+            prefix = o.name[: -len(".extract")] if o.name.endswith(".extract") else None
+            lost = sorted(n for n in locked if prefix and n.startswith(prefix + ".")) if prefix else []
+            if lost:
+                # the function was under contract on the unchanged tree (its obligations are in obligations.lock.json) and can
+                # no longer be brought under it: the named obligations are not discharged any more -> reported as a violation
+                # of the first of them, with the engine's reason; no failing input was found
+                extract_lost.update(lost)
+                violations.append({"kind": "obligation", "obligation": lost[0], "function": o.function, "formula": o.formula,
+                                   "solver_output": f"the function left the verified subset: {o.detail[:500]}", "model": None, "replayed_input": False,
+                                   "note": f"{len(lost)} obligations of this contract recorded as discharged in obligations.lock.json could not be generated"})
+            else:
+                ctx.fail_checker(f"obligation {o.name}: engine error: {o.detail[:300]}")
 
     # bounded side
     evaluations = 0
@@ -334,7 +346,7 @@ def finish(ctx: Ctx, level: str, explanation: str, checker_cmd: str) -> int:
             lock = json.load(f).get(ctx.pid, None)
         if lock is not None and not getattr(ctx, "only", None):
             have = {o.name for o in ctx.obligations if o.kind not in ("canary", "cover", "consistency")}
-            missing = sorted(set(lock) - have)
+            missing = sorted(set(lock) - have - extract_lost)
             if missing:
                 ctx.fail_checker(f"obligations recorded in obligations.lock.json were not generated: {missing[:8]}")
             lock_note = f"{len(lock)} locked obligation ids, all generated"
